@@ -145,10 +145,11 @@ def timestamp_clamped_before_update():
 
 
 def shorthand_lookup_shape():
-    """missing ':value'/':target': only when the identifier has no colon; target exactly for WRITEREPLY"""
+    """missing ':value'/':target': only for a non-empty identifier without colon (repaired shape of commit 0fe05ab);
+    target exactly for WRITEREPLY"""
     blk = _update_block()
     for n in walk_type(blk, ast.If):
-        if _nospace(n.test) == "module_paramisNoneand':'notin(identor'')":
+        if _nospace(n.test).replace('(', '').replace(')', '') == "module_paramisNoneandidentand':'notinident":
             inner = n.body
             if len(inner) == 1 and isinstance(inner[0], ast.If):
                 s = _nospace(inner[0])
